@@ -6,6 +6,24 @@ use std::io::Write;
 use std::sync::atomic::{AtomicU64, Ordering};
 use std::sync::{Arc, Barrier};
 
+/// a print whose format string has NO run-time argument (a compile-time literal with sequences between its three fragments); the
+/// record is the same every time, so it travels under a thread number of its own (40 + t) with call number 1
+macro_rules! lit_rec {
+    ($t:literal) => {
+        concat!("<", $t, ",1,1,3|lit>\x1b[1m<", $t, ",1,2,3|\x1b[0mmid text>\x1b[4m<", $t, ",1,3,3|end\x1b[m>")
+    };
+}
+macro_rules! lit_print {
+    ($mac:ident, $t:expr) => {
+        match $t {
+            1 => anstream::$mac!(lit_rec!(41)), 2 => anstream::$mac!(lit_rec!(42)), 3 => anstream::$mac!(lit_rec!(43)), 4 => anstream::$mac!(lit_rec!(44)),
+            5 => anstream::$mac!(lit_rec!(45)), 6 => anstream::$mac!(lit_rec!(46)), 7 => anstream::$mac!(lit_rec!(47)), 8 => anstream::$mac!(lit_rec!(48)),
+            9 => anstream::$mac!(lit_rec!(49)), 10 => anstream::$mac!(lit_rec!(50)), 11 => anstream::$mac!(lit_rec!(51)), 12 => anstream::$mac!(lit_rec!(52)),
+            13 => anstream::$mac!(lit_rec!(53)), 14 => anstream::$mac!(lit_rec!(54)), 15 => anstream::$mac!(lit_rec!(55)), _ => anstream::$mac!(lit_rec!(56)),
+        }
+    };
+}
+
 fn frag(t: usize, c: usize, f: usize, n: usize, pay: &str) -> String {
     format!("<{t},{c},{f},{n}|{pay}>")
 }
@@ -35,7 +53,7 @@ pub fn print_child(threads: usize, calls: usize, stream: &str) {
                 let mut kept_err = anstream::stderr();
                 for c in 1..=calls {
                     let pad = "x".repeat(r.below(40));
-                    let kind = (c + t) % 14;
+                    let kind = (c + t) % 17;
                     // calls that end with a newline of their own (println!, a "\n" in the format string, writeln!, a record ending in
                     // "\n") announce 4 fragments: the newline right after the third is the fourth and belongs to the same call
                     let n = if matches!(kind, 0 | 1 | 2 | 4) { 4 } else { 3 };
@@ -118,6 +136,23 @@ pub fn print_child(threads: usize, calls: usize, stream: &str) {
                                 write!(lk, "{}", b).unwrap();
                                 lk.write_all(d.as_bytes()).unwrap();
                             }
+                        }
+                        14 => {
+                            // a print WITHOUT run-time arguments: the literal goes the same way as any formatted output
+                            if stream == "stdout" { lit_print!(print, t) } else { lit_print!(eprint, t) }
+                        }
+                        15 => {
+                            // ONE write_all of more than 32 KiB (longer than any piece a size limit would cut it into)
+                            let big1 = "p".repeat(17000 + r.below(2000));
+                            let big2 = "q".repeat(17000 + r.below(2000));
+                            let rec = format!("{}\x1b[31m{}{}", frag(t, c, 1, 3, &big1), frag(t, c, 2, 3, &big2), frag(t, c, 3, 3, "tail\x1b[m"));
+                            if stream == "stdout" { anstream::stdout().write_all(rec.as_bytes()).unwrap() } else { anstream::stderr().write_all(rec.as_bytes()).unwrap() }
+                        }
+                        16 => {
+                            // ONE write_all with more than 1024 printable runs (more than one gathered write takes)
+                            let many = "x\x1b[1m".repeat(1100);
+                            let rec = format!("{}\x1b[31m{}{}", frag(t, c, 1, 3, &pad), frag(t, c, 2, 3, &many), frag(t, c, 3, 3, "tail\x1b[m"));
+                            if stream == "stdout" { anstream::stdout().write_all(rec.as_bytes()).unwrap() } else { anstream::stderr().write_all(rec.as_bytes()).unwrap() }
                         }
                         7 => {
                             // a stream built over a BORROWED process stream locks it per call just the same
